@@ -453,12 +453,26 @@ randombytes_internal_random_stir(void)
              sodium_misuse(); /* LCOV_EXCL_LINE */
          }
      }
+#  ifndef NONEXISTENT_DEV_RANDOM
+     else if (global.random_data_source_fd == -1 ||
+              safe_read(global.random_data_source_fd, stream.key,
+                        sizeof stream.key) != (ssize_t) sizeof stream.key) {
+         sodium_misuse(); /* LCOV_EXCL_LINE */
+     }
+#  endif
 # elif defined(HAVE_LINUX_COMPATIBLE_GETRANDOM)
      if (global.getrandom_available != 0) {
          if (randombytes_linux_getrandom(stream.key, sizeof stream.key) != 0) {
              sodium_misuse(); /* LCOV_EXCL_LINE */
          }
      }
+#  ifndef NONEXISTENT_DEV_RANDOM
+     else if (global.random_data_source_fd == -1 ||
+              safe_read(global.random_data_source_fd, stream.key,
+                        sizeof stream.key) != (ssize_t) sizeof stream.key) {
+         sodium_misuse(); /* LCOV_EXCL_LINE */
+     }
+#  endif
 # elif defined(NONEXISTENT_DEV_RANDOM) && defined(HAVE_SAFE_ARC4RANDOM)
     arc4random_buf(stream.key, sizeof stream.key);
 # elif !defined(NONEXISTENT_DEV_RANDOM)
